@@ -637,6 +637,11 @@ def run(tier, args):
         "inside one function (profiles calls, calls512, calls-stack: big call before small call and the reverse, spill slots and new_stack() memory live "
         "across the calls); probe call-stack-area-max-over-invokes = big call then small call. Seeded change C07-3 (set_call_stack_size instead of "
         "update_call_stack_size in on_before_invoke) is caught by that probe and by x64:miscompile/crash/hang keys of every profile with calls",
+        "about one third of the integer helper-call arguments (register and stack positions, u8..u64) and of the stack-passed double arguments are "
+        "passed as immediates (InvokeNode::set_arg(i, Imm)) drawn from boundary values (0, +-1, 0x7F/0x80/0xFF, 0x7FFF/0x8000/0xFFFF, 0x7FFFFFFF, "
+        "0x80000000, 0xFFFFFFFF, 2^32, INT64 min/max, -0x80000000, -0x80000001, random 32/64-bit); probe immediate-stack-argument rotates them through "
+        "every position of the 14-integer and 14+12 callees. Seeded change C05-3 (is_uint32 instead of is_int32 in move_imm_to_stack_arg) is caught by "
+        "the probe and by x64:miscompile keys of every profile; f32 arguments and immediates for register-passed doubles (refused by AsmJit) are not generated",
         "not generated: calling conventions other than SysV/cdecl for helper calls (x86-32: cdecl/stdcall/fastcall function signatures are compiled only), "
         "MMX/x87 registers, ms_abi callees, string instructions with REP",
     ]
